@@ -453,9 +453,106 @@ func (r *Roles) resolveBoundaries(p *an.Prog) {
 			}
 		})
 		if b != nil {
+			r.helperHandled(p, b)
 			r.Boundaries = append(r.Boundaries, b)
 		}
 	}
+}
+
+// helperHandled: the boundary's closure hands the recovered value to a module function that sorts
+// panics into those that become an error (a non-nil result for the types it recognises) and the rest
+// (nil), and returns that error when it is not nil. The recognised types are handled types.
+func (r *Roles) helperHandled(p *an.Prog, b *Boundary) {
+	cl := b.Closure
+	var rec ssa.Value
+	an.EachInstr(cl, func(in ssa.Instruction) {
+		if c, ok := in.(*ssa.Call); ok {
+			if bi, ok := c.Call.Value.(*ssa.Builtin); ok && bi.Name() == "recover" {
+				rec = c
+			}
+		}
+	})
+	if rec == nil {
+		return
+	}
+	an.EachInstr(cl, func(in ssa.Instruction) {
+		c, ok := in.(*ssa.Call)
+		if !ok {
+			return
+		}
+		h := c.Call.StaticCallee()
+		if h == nil || h.Blocks == nil || !p.InModule(h) || h.Signature.Results().Len() != 1 {
+			return
+		}
+		argIdx := -1
+		for i, a := range c.Call.Args {
+			if an.Reaches(a, an.StepValue, func(v ssa.Value) bool { return v == rec }) {
+				argIdx = i
+			}
+		}
+		if argIdx < 0 || argIdx >= len(h.Params) {
+			return
+		}
+		// the result is tested against nil and the non-nil side does not panic
+		usedAsError := false
+		if c.Referrers() != nil {
+			for _, u := range *c.Referrers() {
+				bo, ok := u.(*ssa.BinOp)
+				if !ok || bo.Referrers() == nil || !(an.IsNilConst(bo.X) || an.IsNilConst(bo.Y)) {
+					continue
+				}
+				for _, uu := range *bo.Referrers() {
+					if ifi, ok := uu.(*ssa.If); ok {
+						nonNil := ifi.Block().Succs[0]
+						if bo.Op == token.EQL {
+							nonNil = ifi.Block().Succs[1]
+						}
+						if !reachesPanic(nonNil) {
+							usedAsError = true
+						}
+					}
+				}
+			}
+		}
+		if !usedAsError {
+			return
+		}
+		par := h.Params[argIdx]
+		an.EachInstr(h, func(in ssa.Instruction) {
+			ta, ok := in.(*ssa.TypeAssert)
+			if !ok || !ta.CommaOk || ta.X != ssa.Value(par) || ta.Referrers() == nil {
+				return
+			}
+			for _, u := range *ta.Referrers() {
+				ex, ok := u.(*ssa.Extract)
+				if !ok || ex.Index != 1 || ex.Referrers() == nil {
+					continue
+				}
+				for _, uu := range *ex.Referrers() {
+					ifi, ok := uu.(*ssa.If)
+					if !ok {
+						continue
+					}
+					// on the ok side every return carries a value that is not the nil constant
+					okSide := ifi.Block().Succs[0]
+					good, n := true, 0
+					an.EachInstr(h, func(in2 ssa.Instruction) {
+						ret, isRet := in2.(*ssa.Return)
+						if !isRet || !okSide.Dominates(ret.Block()) {
+							return
+						}
+						n++
+						if an.IsNilConst(resultsOf(ret)[0]) {
+							good = false
+						}
+					})
+					if good && n > 0 {
+						b.Handled = append(b.Handled, ta.AssertedType)
+					}
+				}
+			}
+		})
+	})
 }
 
 // BoundaryOf returns the boundary record of fn, if fn is one.
